@@ -210,6 +210,8 @@ video_filter_init(struct video_filter_s* self,
     CHECK(out);
     *self = (struct video_filter_s){ .stream_id = stream_id, .out = out };
     channel_new(&self->in, channel_size_bytes);
+    // Register the filter's reader with its queue now (see video_sink_init()).
+    channel_read_map(&self->in, &self->reader);
     thread_init(&self->thread);
     event_init(&self->accumulator_reset_event);
     return Device_Ok;
